@@ -66,7 +66,21 @@ def extra_cases(tier):
                 for seq in ([2], [0], [2, 1]):          # set_n_ids(3) / (1) / (3) then (2)
                     prog = [['fix', k]] + [['set_n_ids', a] for a in seq]
                     out.append(dict(kind='pop', pop=pop, n_ids=2, prog=prog, enumerated=True))
+    # every history of length <= 4 (quick: <= 3 plus all of length 4 that start with 'S1') over
+    # {sensitivities on, fix, release all, display name, indirect route, outputs} on one small generated model
+    for L in range(1, 5):
+        for seq in itertools.product(['S1', 'F', 'U', 'NP', 'A1', 'O1'], repeat=L):
+            if L == 4 and tier == 'quick' and seq[0] != 'S1':
+                continue
+            out.append(dict(kind='mech', ms=MECH_MS, ops=list(seq), enumerated=True))
     return out
+
+
+MECH_MS = dict(comps=[dict(id='zeta', size=1.3, sid='drug', init=0.8)], gstates=[dict(id='Wx', init=1.5)],
+               consts=[dict(id='k_b', value=0.3), dict(id='Ka', value=0.7)], derived=[],
+               flows=[dict(src=0, dst=1, rate='Ka'), dict(src=1, dst=None, rate='k_b')],
+               inter=[dict(id='obs', terms=[[2.0, 0], [0.5, 1]])],
+               perm=dict(species=[0], params=[3, 0, 2, 1], rules=[2, 0, 1], comps=[0]))
 
 
 @st.composite
@@ -107,7 +121,7 @@ def _spec(draw):
         s = draw(c14._spec())
         return dict(kind='ctrl', c=s)
     ms = sbmlgen.draw_model(draw, max_states=4)
-    ops = [draw(st.sampled_from(['A0', 'A1', 'O0', 'O1', 'S1', 'NP', 'F'])) for _ in range(draw(st.integers(0, 6)))]
+    ops = [draw(st.sampled_from(['A0', 'A1', 'O0', 'O1', 'S1', 'NP', 'F', 'F', 'U'])) for _ in range(draw(st.integers(0, 7)))]
     return dict(kind='mech', ms=ms, ops=ops)
 
 
@@ -492,6 +506,7 @@ def check(case):
                     case.equal(np.shape(res), (no, 3), '%s: output shape' % what, kind='shape')
             inv('fresh')
             n_ren = 0
+            fixed_names = []
             for i, op in enumerate(s['ops']):
                 if op in ('A0', 'A1'):
                     if isinstance(M, chi.ReducedMechanisticModel):
@@ -506,7 +521,13 @@ def check(case):
                     if not isinstance(M, chi.ReducedMechanisticModel):
                         M = chi.ReducedMechanisticModel(M)
                     if M.n_parameters() >= 2:
+                        fixed_names.append(M.parameters()[-1])
                         M.fix_parameters({M.parameters()[-1]: 0.7})
+                elif op == 'U':
+                    # release everything that is fixed in one call
+                    if isinstance(M, chi.ReducedMechanisticModel) and fixed_names:
+                        M.fix_parameters({nm: None for nm in fixed_names})
+                        del fixed_names[:]
                 elif op == 'O0':
                     M.set_outputs([sq[0]])
                 elif op == 'O1':
